@@ -1,4 +1,4 @@
-//@serves C01 C04
+//@serves C10 C12 C04
 //@tier A
 //@include prelude/head.rs
 verus! {
@@ -11,7 +11,7 @@ verus! {
 //@include prelude/c15.rs
 //@include prelude/static_fs.rs
 //@include prelude/resolver_static.rs
-//@include prelude/symlink_stack_stub_static.rs
+//@include prelude/symlink_stack_spec.rs
 //@broadcast-here
 pub type RawMode = u32;
 pub mod syscalls {
@@ -25,11 +25,27 @@ use syscalls::Error as SyscallError;
 //@item src/error.rs :: enum ErrorKind | sub.ErrorKind
 //@item src/resolvers.rs :: const MAX_SYMLINK_TRAVERSALS
 //@item src/resolvers.rs :: enum PartialLookup | sub.PartialLookup
+pub mod fmt { pub use core::fmt::Debug; }
+//@item src/resolvers/opath/symlink_stack.rs :: struct SymlinkStackEntry | sub.SymlinkStackEntry
+//@item src/resolvers/opath/symlink_stack.rs :: struct SymlinkStack | sub.SymlinkStack
+impl<F: fmt::Debug> SymlinkStackEntry<F> {
+    pub open spec fn v(&self) -> EntryV<F> { EntryV { dir: self.state.0, rem: self.state.1@, parts: cv(self.unwalked_link_parts@) } }
+}
+impl<F: fmt::Debug> SymlinkStack<F> {
+    pub open spec fn view(&self) -> Seq<EntryV<F>> { self.0@.map_values(|e: SymlinkStackEntry<F>| e.v()) }
+//@use ss.pop_part proto
+//@use ss.swap_link proto
+//@use ss.pop_top_symlink
+//@use ss.new
+}
+//@include prelude/symlink_stack_proto.rs
+/// R20: `Option<&mut SymlinkStack<OwnedFd>>` as a struct behind one `&mut` (present == Some)
+pub struct OptStack { pub present: bool, pub stack: SymlinkStack<OwnedFd> }
 impl RawComponents<'_> {
 //@use utils.path.RawComponents.prepend
 }
 //@use opath.check_current__static
 //@use opath.may_follow_link__static
-//@prove opath.do_resolve__static
+//@prove opath.do_resolve__proto
 } // verus!
 fn main() {}
